@@ -324,14 +324,16 @@ def run_case(spec):
 
 
 def sig_boundary_improvement_snap(spec, fail):
-    """KF-C15-1: the excess over the radius is tiny (<= 1e-6 relative), comes from the improvement of the step
-    on the trust-region boundary (improve_tcg=True: a coordinate that the rotation brings next to a bound is
-    snapped onto the bound and the other coordinates are not rescaled) and is absent with improve_tcg=False."""
+    """KF-C15-1: the excess over the radius comes from the improvement of the step on the trust-region boundary
+    (improve_tcg=True: the direction orthogonal to the step is obtained from sqrt(|s|^2 |g|^2 - (g.s)^2), which
+    cancels when the projected gradient is nearly parallel to the step, so the "rotation" stretches the step; a
+    coordinate snapped onto a bound adds to it), stays below the 10 % that the solver's own debug assertion
+    tolerates, and is absent with improve_tcg=False."""
     d = fail.data or {}
     if ".radius/" not in fail.clause or d.get("solver") not in ("tangential", "constrained"):
         return False
     sp = dec(spec)
-    if not sp.get("improve_tcg") or not (0.0 < d.get("rel_excess", 1.0) <= 1e-6):
+    if not sp.get("improve_tcg") or not (0.0 < d.get("rel_excess", 1.0) < 0.1):
         return False
     sub = Sub(dict(sp, improve_tcg=False))
     try:
